@@ -302,4 +302,186 @@ theorem ifWrite_cases (env : Env) (s : State) (address : Nat) (data : Bytes) :
     · right; left; simp [h0]
   · left; simp at ho; simp [ho]
 
+/-! ### Frame: port writes touch only the register memories and event queues -/
+
+/-- control part of the state: everything but the register memories and event queues -/
+def SameCtl (s s' : State) : Prop :=
+  s'.libInit = s.libInit ∧ s'.sysOpen = s.sysOpen ∧ s'.ifOpen = s.ifOpen ∧ s'.lastErr = s.lastErr ∧
+  s'.slots = s.slots
+
+theorem SameCtl.rfl' (s : State) : SameCtl s s := ⟨rfl, rfl, rfl, rfl, rfl⟩
+
+theorem sysWrite_ctl (env : Env) (s : State) (a : Nat) (d : Bytes) : SameCtl s (sysWrite env s a d).1 := by
+  unfold sysWrite
+  repeat' split
+  all_goals simp [SameCtl]
+
+theorem ifWrite_ctl (env : Env) (s : State) (a : Nat) (d : Bytes) : SameCtl s (ifWrite env s a d).1 := by
+  unfold ifWrite
+  repeat' split
+  all_goals simp [SameCtl]
+
+theorem portWrite_ctl (env : Env) (s : State) (m : Module) (a : Nat) (d : Bytes) :
+    SameCtl s (portWrite env s m a d).1 := by
+  cases m
+  · exact sysWrite_ctl env s a d
+  · exact ifWrite_ctl env s a d
+
+theorem SameCtl.trans {a b c : State} (h1 : SameCtl a b) (h2 : SameCtl b c) : SameCtl a c := by
+  obtain ⟨a1, a2, a3, a4, a5⟩ := h1
+  obtain ⟨b1, b2, b3, b4, b5⟩ := h2
+  exact ⟨b1.trans a1, b2.trans a2, b3.trans a3, b4.trans a4, b5.trans a5⟩
+
+theorem writeStacked_ctl (env : Env) (m : Module) (s : State) (es : List (Nat × Bytes)) (n : Nat) :
+    SameCtl s (writeStacked env m s es n).1 := by
+  induction es generalizing s n with
+  | nil => simp [writeStacked, SameCtl]
+  | cons e es ih =>
+    obtain ⟨a, data⟩ := e
+    have h := portWrite_ctl env s m a data
+    unfold writeStacked
+    split
+    · rename_i s' _ heq
+      have : s' = (portWrite env s m a data).1 := by rw [heq]
+      subst this
+      exact h.trans (ih _ _)
+    · rename_i s' _ heq
+      have : s' = (portWrite env s m a data).1 := by rw [heq]
+      subst this
+      exact h
+    · rename_i s' heq
+      have : s' = (portWrite env s m a data).1 := by rw [heq]
+      subst this
+      exact h
+
+
+theorem portWrite_eq_ctl {env : Env} {s s' : State} {m : Module} {a : Nat} {d : Bytes} {r : GR Nat}
+    (h : portWrite env s m a d = (s', r)) : SameCtl s s' := by
+  have := portWrite_ctl env s m a d
+  rw [h] at this
+  exact this
+
+theorem writeStacked_eq_ctl {env : Env} {m : Module} {s s' : State} {es : List (Nat × Bytes)} {n k : Nat}
+    {r : GR Unit} (h : writeStacked env m s es n = (s', k, r)) : SameCtl s s' := by
+  have := writeStacked_ctl env m s es n
+  rw [h] at this
+  exact this
+
+/-- the body of a call never touches `LAST_ERROR` (only the wrapper does) -/
+theorem body_lastErr (env : Env) (s : State) (c : Call) : (body env s c).st.lastErr = s.lastErr := by
+  cases c <;> simp only [body] <;> (repeat' split) <;> simp [State.setSlot]
+  all_goals first
+    | exact (portWrite_eq_ctl (by assumption)).2.2.2.1
+    | exact (writeStacked_eq_ctl (by assumption)).2.2.2.1
+
+/-- effect of a call body on `IS_LIB_INITIALIZED` -/
+theorem body_libInit (env : Env) (s : State) (c : Call) :
+    (body env s c).st.libInit =
+      (match c with | .initLib => true | .closeLib => false | _ => s.libInit) := by
+  cases c <;> simp only [body] <;> (repeat' split) <;> simp_all [State.setSlot]
+  all_goals first
+    | exact (portWrite_eq_ctl (by assumption)).1
+    | exact (writeStacked_eq_ctl (by assumption)).1
+
+/-- Only `TLOpen` / `TLClose` change `SystemModule::is_opened`. -/
+theorem body_sysOpen (env : Env) (s : State) (c : Call)
+    (h1 : ∀ k, c ≠ .tlOpen k) (h2 : ∀ h, c ≠ .tlClose h) :
+    (body env s c).st.sysOpen = s.sysOpen := by
+  cases c <;> simp only [body] <;> (repeat' split) <;> simp_all [State.setSlot]
+  all_goals first
+    | exact (portWrite_eq_ctl (by assumption)).2.1
+    | exact (writeStacked_eq_ctl (by assumption)).2.1
+
+/-- Only `TLOpenInterface` / `IFClose` / `TLClose` change `U3VInterfaceModule::is_opened`. -/
+theorem body_ifOpen (env : Env) (s : State) (c : Call)
+    (h1 : ∀ h id k, c ≠ .tlOpenInterface h id k) (h2 : ∀ h, c ≠ .tlClose h) (h3 : ∀ h, c ≠ .ifClose h) :
+    (body env s c).st.ifOpen = s.ifOpen := by
+  cases c <;> simp only [body] <;> (repeat' split) <;> simp_all [State.setSlot]
+  all_goals first
+    | exact (portWrite_eq_ctl (by assumption)).2.2.1
+    | exact (writeStacked_eq_ctl (by assumption)).2.2.1
+
+theorem Err.code_neg (e : Err) : e.code < 0 := by
+  cases e <;> simp [Err.code]
+
+/-! ### Well-formed states: memory sizes and the InterfaceID register -/
+
+/-- Invariant of every reachable state: both memories have the size of their map and the
+(read-only) `InterfaceID` register still holds the id written by `initialize_vm`. -/
+structure WF (env : Env) (s : State) : Prop where
+  sysLen : s.sysMem.length = SYS_XML_ADDRESS + env.sysXml.length
+  ifLen : s.ifMem.length = IF_XML_ADDRESS + env.ifXml.length
+  idOk : IdOk s.sysMem
+
+theorem WF.sys1100 {env : Env} {s : State} (h : WF env s) : 1100 ≤ s.sysMem.length := by
+  have := h.sysLen
+  simp only [SYS_XML_ADDRESS] at this
+  omega
+
+theorem WF_congr {env : Env} {s s' : State} (h1 : s'.sysMem = s.sysMem) (h2 : s'.ifMem = s.ifMem)
+    (h : WF env s) : WF env s' :=
+  ⟨by rw [h1]; exact h.sysLen, by rw [h2]; exact h.ifLen, by rw [h1]; exact h.idOk⟩
+
+theorem stored_length {mem : Bytes} {a : Nat} {data : Bytes} (h : a + data.length ≤ mem.length) :
+    (stored mem a data).length = mem.length := splice_length h
+
+theorem sysWrite_wf (env : Env) (s : State) (a : Nat) (d : Bytes) (h : WF env s) :
+    WF env (sysWrite env s a d).1 := by
+  rcases sysWrite_cases env s a d h.sys1100 h.idOk with e | e | ⟨q', r, e, _, h2, hw⟩
+  · rw [e]; exact h
+  · rw [e]; exact h
+  · rw [e]
+    exact ⟨by simp only; rw [stored_length h2]; exact h.sysLen, h.ifLen,
+      IdOk_splice env _ _ _ h.idOk h2 hw⟩
+
+theorem ifWrite_wf (env : Env) (s : State) (a : Nat) (d : Bytes) (h : WF env s) :
+    WF env (ifWrite env s a d).1 := by
+  rcases ifWrite_cases env s a d with ⟨e, _⟩ | e | e | ⟨q', r, e, _, h2, _, _⟩
+  · rw [e]; exact h
+  · rw [e]; exact h
+  · rw [e]; exact h
+  · rw [e]
+    exact ⟨h.sysLen, by simp only; rw [stored_length h2]; exact h.ifLen, h.idOk⟩
+
+theorem portWrite_wf (env : Env) (s : State) (m : Module) (a : Nat) (d : Bytes) (h : WF env s) :
+    WF env (portWrite env s m a d).1 := by
+  cases m
+  · exact sysWrite_wf env s a d h
+  · exact ifWrite_wf env s a d h
+
+theorem portWrite_eq_wf {env : Env} {s s' : State} {m : Module} {a : Nat} {d : Bytes} {r : GR Nat}
+    (h : WF env s) (e : portWrite env s m a d = (s', r)) : WF env s' := by
+  have := portWrite_wf env s m a d h
+  rw [e] at this
+  exact this
+
+theorem writeStacked_wf (env : Env) (m : Module) (s : State) (es : List (Nat × Bytes)) (n : Nat)
+    (h : WF env s) : WF env (writeStacked env m s es n).1 := by
+  induction es generalizing s n with
+  | nil => simpa [writeStacked] using h
+  | cons e es ih =>
+    obtain ⟨a, data⟩ := e
+    unfold writeStacked
+    split
+    · rename_i s' _ heq
+      exact ih _ _ (portWrite_eq_wf h heq)
+    · rename_i s' _ heq
+      exact portWrite_eq_wf h heq
+    · rename_i s' heq
+      exact portWrite_eq_wf h heq
+
+theorem writeStacked_eq_wf {env : Env} {m : Module} {s s' : State} {es : List (Nat × Bytes)} {n k : Nat}
+    {r : GR Unit} (h : WF env s) (e : writeStacked env m s es n = (s', k, r)) : WF env s' := by
+  have := writeStacked_wf env m s es n h
+  rw [e] at this
+  exact this
+
+theorem body_wf (env : Env) (s : State) (c : Call) (h : WF env s) : WF env (body env s c).st := by
+  cases c <;> simp only [body] <;> (repeat' split)
+  all_goals first
+    | exact h
+    | exact WF_congr (s := s) rfl rfl h
+    | exact portWrite_eq_wf h (by assumption)
+    | exact writeStacked_eq_wf h (by assumption)
+
 end CamVerif.GenTL
